@@ -61,3 +61,15 @@ claim("C06", E1,
       "jaxpr -> SMT, one equality obligation per parameter leaf (linear/polynomial real arithmetic)",
       "DESIGN.md §3 C06")
 NOT_APPLICABLE.pop("C06", None)
+
+claim("C03", E1,
+      "Bounded symbolic check of 13 losses (dqn, nature_dqn, ddqn, ddqn_per, ddpg, td3, td3_lap, sac, td7_update_critic, mrq_loss, "
+      "SALE embedding loss, model_based_encoder_loss with/without target normalisation) traced with the real tiny rl_blox networks: "
+      "mode P quantifies over ALL parameters/observations/actions by generalising the exported forward passes to free reals; loss and "
+      "every auxiliary output = documented formula, terminated rows ignore the bootstrap (2-copy), batch-order invariance, zero "
+      "gradient to target networks / successor inputs, batch-size-1 behaviour; mode C (seeded networks) only produces replayable "
+      "counterexamples.",
+      REAL + " Batch 1-3, obs dim 2, action dim 1, 3 discrete actions, hidden [2], horizons 2, 3 bins.",
+      "jaxpr -> SMT with forward-pass generalisation (z3.substitute), QF_NRA+ite decided by a z3 portfolio (default / nlsat / ite-elim) in fresh contexts",
+      "DESIGN.md §3 C03, §1.5")
+NOT_APPLICABLE.pop("C03", None)
